@@ -947,6 +947,10 @@ class Enforcer:
         reloaded, data = _cache_handler.read_cached_file(
             self._file_cache, path, force_reload=force_reload)
         if reloaded or not self.rules:
+            if not isinstance(data, str):
+                # The file has disappeared; there is nothing to load from
+                # it, continue as if it were empty.
+                data = ''
             rules = Rules.load(data, self.default_rule)
             self.set_rules(rules, overwrite=overwrite, use_conf=True)
             rules_changed = True
